@@ -376,12 +376,16 @@ func (response *InboundCallResponse) SendSystemError(err error) error {
 	response.state = reqResWriterComplete
 	response.systemError = true
 	response.setSpanErrorDetails(err)
+
+	// Queue the error frame before the exchange is shut down: once the last
+	// exchange of a closing connection goes away the connection closes, and an
+	// error frame sent after that would be dropped.
+	span := CurrentSpan(response.mex.ctx)
+	sendErr := response.conn.SendSystemError(response.mex.msgID, *span, err)
+
 	response.doneSending()
 	response.call.releasePreviousFragment()
-
-	span := CurrentSpan(response.mex.ctx)
-
-	return response.conn.SendSystemError(response.mex.msgID, *span, err)
+	return sendErr
 }
 
 // SetApplicationError marks the response as being an application error.  This method can
